@@ -581,6 +581,8 @@ func suiteC01(c *ctx) {
 						line := f.data
 						if i := bytes.IndexByte(line, '\n'); i >= 0 {
 							line = line[:i+1]
+						} else {
+							line = append(append([]byte(nil), line...), '\n') // (an unterminated hash line is terminated first)
 						}
 						rec := append(append([]byte(nil), line...), aux...)
 						if r.Intn(4) == 0 {
